@@ -194,11 +194,13 @@ CLAIMED = {
              "Daun degree-0 projected basis and of the onion-peeling weight matrix W (all i, j) equals the Abel integral of its "
              "rectangular basis function, whose documented formula is also proved; the Abel integral of the ramp (R−r)₊ in closed form "
              "and of the quadratic ramp (R−r)₊² (fundamental theorem of calculus), hence every entry of the Daun degree-1 and degree-2 "
-             "bases (all i, j) equals the Abel integral of its hat function / quadratic B-spline. Tie: Lean matrices (onionW, twoPointD, "
-             "threePointD, daun0-2) vs the implementation's arrays entrywise. Oracle: scipy quadrature of the defining integrals "
+             "bases (all i, j) equals the Abel integral of its hat function / quadratic B-spline; the integrals ∫(r/ρ)ⁿ dz along a line of "
+             "sight (closed forms for n ≤ 3, reduction formula for all n), hence every entry p_{R;n}(r), 1 ≤ r ≤ R, of rBasex's radial "
+             "basis projections — as _bs_rbasex computes it, for every angular order — equals 2∫ b_R(ρ)(r/ρ)ⁿ dz. Tie: Lean matrices "
+             "(onionW, twoPointD, threePointD, daun0-2, the _bs_rbasex model) vs the implementation's arrays entrywise. Oracle: scipy quadrature of the defining integrals "
              "for daun 0-3 (degree 3 via the clamped cubic Hermite spline), basex χ_k/ρ_k for several σ, rbasex p_{R;n}, and the "
              "inverse-Abel integrals of the two-/three-point local interpolants; onion D·W = 1.",
-        note="Partial: theorem-backed families are daun degrees 0-2 and onion-peeling W; the other families are quadrature-backed "
+        note="Partial: theorem-backed families are daun degrees 0-2, onion-peeling W and rbasex; daun 3, basex and two/three-point are quadrature-backed "
              "(1e-9) at special and random indices. Trusted: Lean kernel + standard axioms; scipy.integrate.quad; the reading of "
              "each basis function from the documentation; rbasex P[n][0,0]=1 (n>0) is a documented convention, not an integral.",
         technique="Lean 4 proof (Lebesgue integral of indicators, FTC for the ramp, real square-root/log algebra) + entrywise differential check + quadrature oracle",
